@@ -48,6 +48,11 @@ fn mayfail(x: i32) -> i32 ! i32 {
     if x > 0 { return 7!; }
     return x;
 }
+fn mayfailP(x: i32) -> P ! i32 {
+    let pe: P = {.X = 1, .Y = 2, .In = {.A = 3, .Arr = [4, 5]}};
+    if x > 0 { return pe!; }
+    return x;
+}
 `
 
 const (
@@ -233,6 +238,13 @@ var c06Kinds = []c06Kind{
 			h = "catch e0 {\n        let e: i32 = e0;\n        " + m + "\n        io::Println(e);\n    } 0"
 		}
 		return c06Prelude + "\nfn site(flag: i32) {\n    let r0: i32 = mayfail(1) " + h + ";\n    io::Println(r0);\n}\n\nfn main() {\n    site(1);\n}\n"
+	}},
+	{name: "catch_var_struct", root: "P", rootName: "e", print: "e.X, e.In.A, e.In.Arr[1]", build: func(m string, imm bool, _ string) string {
+		h := "catch e {\n        " + m + "\n        io::Println(e.X, e.In.A, e.In.Arr[1]);\n    } 0"
+		if !imm {
+			h = "catch e0 {\n        let e: P = e0;\n        " + m + "\n        io::Println(e.X, e.In.A, e.In.Arr[1]);\n    } 0"
+		}
+		return c06Prelude + "\nfn site(flag: i32) {\n    let r0: i32 = mayfailP(1) " + h + ";\n    io::Println(r0);\n}\n\nfn main() {\n    site(1);\n}\n"
 	}},
 	{name: "ref_param_struct", root: "P", rootName: "r", print: "r.X", build: func(m string, imm bool, _ string) string {
 		return c06Prelude + "\nfn site(r: " + c06Ref(imm) + "P, flag: i32) {\n    " + m + "\n    io::Println(r.X, r.In.A);\n}\n\nfn main() {\n    let s: P = " + c06PLit + ";\n    site(" + c06Ref(imm) + "s, 1);\n    io::Println(s.X, s.In.A, s.In.Arr[1]);\n}\n"
